@@ -27,6 +27,7 @@ package cfgbackend
 import (
 	"errors"
 	"fmt"
+	"math"
 	"strconv"
 	"strings"
 
@@ -67,6 +68,10 @@ func (cc *ConsulSource) GetNextUInt32(key string) (value uint32, err error) {
 	var value64 uint64
 	value64, err = strconv.ParseUint(string(kvp.Value[:]), 10, 32)
 	if err != nil {
+		return
+	}
+	if value64 >= math.MaxUint32 {
+		err = fmt.Errorf("counter %s exhausted at %d, refusing to wrap around", key, value64)
 		return
 	}
 	value = uint32(value64)
